@@ -871,6 +871,28 @@ theorem end_to_end (w : World) (hw : WorldOK w) (nodeId : Str) (ipOK : Bool) (me
         obtain ⟨sr, hparse, hns, _⟩ := never_across_namespaces w hw _ hpok c hc names req o ho name val hm hk id rfl hnoref
         exact ⟨id, l, sr, rfl, hmem, rfl, hparse, hns⟩
 
+/-- Never to an unauthenticated stream, from the wire up: a plaintext stream is given a nil identity list by
+    `authenticate`, `authorize` then leaves `VerifiedIdentity` nil, and `SecretGen` returns nothing - for every
+    claimed node, every world, every cache state and every request. -/
+theorem plaintext_stream_gets_no_secret (results : List (Option (List Str))) (ids : Option (List Str))
+    (hauth : authenticate true .plain false results = some ids)
+    (flag : Bool) (nodeId : Str) (ipOK : Bool) (metaNs metaSA cfg : Str) (res : AuthRes)
+    (hconn : connect flag nodeId ipOK metaNs metaSA ids = some (cfg, res)) :
+    res = .ok none ∧
+      ∀ (w : World) (c : Cache) (cluster : Str) (refs : Option (List Str)) (names : List Str) (req : Option PushReq),
+        generate w c ⟨none, cluster, refs⟩ names req = none := by
+  rw [plaintext_unauthenticated] at hauth
+  cases hauth
+  unfold connect at hconn
+  cases hd : parseNodeDomain nodeId ipOK with
+  | none => rw [hd] at hconn; cases hconn
+  | some dom =>
+    rw [hd] at hconn
+    simp only [Option.some.injEq, Prod.mk.injEq] at hconn
+    refine ⟨?_, fun w c cluster refs names req => unverified_gets_nothing w c _ names req rfl⟩
+    rw [← hconn.2]
+    rfl
+
 /-! ### Non-vacuity: a concrete world, differently privileged proxies, one shared cache -/
 
 def exSecrets : Str → Str → Option SecretData := fun name ns =>
